@@ -24,7 +24,9 @@ from elementpath.namespaces import XSD_ANY_TYPE, XSD_ANY_SIMPLE_TYPE, XSD_ANY_AT
 from elementpath.namespaces import XSD_NAMESPACE, XPATH_MATH_FUNCTIONS_NAMESPACE
 from elementpath.datatypes import AnyAtomicType, AbstractDateTime, AnyURI, \
     DayTimeDuration, Date, DateTime, DecimalProxy, Duration, Integer, QName, \
-    Timezone, UntypedAtomic, AbstractQName
+    Timezone, UntypedAtomic, AbstractQName, Time, GregorianDay, GregorianMonth, \
+    GregorianMonthDay, GregorianYear, GregorianYearMonth, HexBinary, Base64Binary, \
+    Notation
 from elementpath.tdop import Token, MultiLabel
 from elementpath.helpers import ordinal, get_double
 from elementpath.xpath_context import XPathContext, XPathSchemaContext
@@ -47,6 +49,13 @@ _LEAF_ELEMENTS_TOKENS = frozenset((
 ))
 
 T = TypeVar('T', bound=ta.ItemType)
+
+
+# Primitive types that are comparable only with values of the same primitive type
+COMPARABLE_TYPES = (
+    DateTime, Date, Time, GregorianDay, GregorianMonth, GregorianMonthDay, GregorianYear,
+    GregorianYearMonth, Duration, HexBinary, Base64Binary, QName, Notation
+)
 
 
 class XPathToken(Token[ta.XPathTokenType]):
@@ -578,11 +587,25 @@ class XPathToken(Token[ta.XPathTokenType]):
         """Checks and adapts a couple of atomic values for a general comparison."""
         msg = "cannot compare {!r} and {!r}"
         match op1:
+            case UntypedAtomic():
+                if isinstance(op2, UntypedAtomic):
+                    # Two xs:untypedAtomic values are compared as strings
+                    yield op1.value, op2.value
+                    return
+                elif isinstance(op2, (AbstractDateTime, Duration)):
+                    # Cast the untyped value to the type of the other operand
+                    yield from self._iter_comparison_couple(
+                        type(op2).make(op1, parser=self.parser), op2, context
+                    )
+                    return
+            case AbstractDateTime() | Duration():
+                if isinstance(op2, UntypedAtomic):
+                    op2 = type(op1).make(op2, parser=self.parser)
             case str() | AnyURI():
                 if not isinstance(op2, (str, UntypedAtomic, AnyURI)):
                     raise TypeError(msg.format(type(op1), type(op2)))
             case bool():
-                if isinstance(op2, (str, Integer, AbstractQName, AnyURI)):
+                if not isinstance(op2, (bool, UntypedAtomic)):
                     raise TypeError(msg.format(type(op1), type(op2)))
             case Integer():
                 if isinstance(op2, (str, AbstractQName, AnyURI, bool)):
@@ -602,16 +625,27 @@ class XPathToken(Token[ta.XPathTokenType]):
             case AbstractQName():
                 if not isinstance(op2, (AbstractQName, UntypedAtomic)):
                     raise TypeError(msg.format(type(op1), type(op2)))
-            case AbstractDateTime():
-                if isinstance(op2, AbstractDateTime) and \
-                        context is not None and context.timezone is not None:
-                    # Values without a timezone are compared using the implicit timezone
-                    if op1.tzinfo is None:
-                        op1 = copy(op1)
-                        op1.tzinfo = context.timezone
-                    if op2.tzinfo is None:
-                        op2 = copy(op2)
-                        op2.tzinfo = context.timezone
+
+        # Values of different primitive types are not comparable
+        for cls in COMPARABLE_TYPES:
+            if isinstance(op1, cls):
+                if not isinstance(op2, (cls, UntypedAtomic)):
+                    raise TypeError(msg.format(type(op1), type(op2)))
+                break
+            elif isinstance(op2, cls):
+                if not isinstance(op1, UntypedAtomic):
+                    raise TypeError(msg.format(type(op1), type(op2)))
+                break
+
+        if isinstance(op1, AbstractDateTime) and isinstance(op2, AbstractDateTime) and \
+                context is not None and context.timezone is not None:
+            # Values without a timezone are compared using the implicit timezone
+            if op1.tzinfo is None:
+                op1 = copy(op1)
+                op1.tzinfo = context.timezone
+            if op2.tzinfo is None:
+                op2 = copy(op2)
+                op2.tzinfo = context.timezone
 
         yield op1, op2
 
